@@ -134,6 +134,15 @@ def scn_coalescent(model, T, scheme, hbatch, tbatch, grid=None):
                 theta = mk.real("theta", tbatch + (G + 1,), lo=0)
                 dist = co.PiecewiseConstantCoalescentGrid(theta, torch.tensor(grid, dtype=torch.float64))
                 mkdemo = lambda b: kingman.GridConstant([el(theta, b[:len(tbatch)] + (i,)) for i in range(G + 1)], grid)
+            elif model == "linear_equal_knots":
+                # two neighbouring knots share one value (a flat piece inside the grid), the last knot differs
+                G = len(grid)
+                ab = mk.real("theta", (2,), lo=0)
+                if mk.symbolic:
+                    mk.require(el(ab, (0,)) != el(ab, (1,)))
+                theta = torch.cat((ab[:1].expand(G), ab[1:]), -1) if G >= 1 else ab[1:]
+                dist = co.PiecewiseLinearCoalescentGrid(theta, torch.tensor(grid, dtype=torch.float64))
+                mkdemo = lambda b: kingman.GridLinear([el(theta, (i,)) for i in range(G + 1)], grid)
             elif model == "linear":
                 G = len(grid)
                 theta = mk.real("theta", tbatch + (G + 1,), lo=0)
@@ -253,6 +262,9 @@ def obligations(tier, seed):
             T = 3 if model in ("constant", "skyride") and tier == "thorough" else 2
             args = (model, T, "serial", hb, tb) + ((grid,) if grid else ())
             add("C08.%s[T=%d,serial,hbatch=%s,tbatch=%s]" % (model, T, hb, tb), args, "%s coalescent ≡ Kingman (batched)" % model)
+    for T in (2, 3):
+        for scheme in ("iso", "serial"):
+            add("C08.linear.equal_knots[T=%d,%s,grid=[0.4, 2.5]]" % (T, scheme), ("linear_equal_knots", T, scheme, (), (), [0.4, 2.5]), "piecewise-linear coalescent with a flat piece inside the grid ≡ Kingman")
     for T in (2, 3):
         add("C08.consequences[T=%d]" % T, (T, "serial", [0.4, 2.5]), "same N(t) ⇒ same density; scaling law", factory="scn_consequences")
     add("C08.model_call[T=3]", (3, "serial"), "model wrapper passes tips+internal heights", factory="scn_model_call")
